@@ -150,15 +150,43 @@ def gen_wsdl(r, idx, force=None):
                 else:
                     hmsg = message(U + "Headers", [hp])
                 hdr = ("header", {"message": hmsg, "part": hp["name"], "use": "literal"})
+            if not rpc and p("doc_two_parts", 0.12) and not any(q["type"] for q in in_parts):
+                # document style with two element parts in the Body (allowed by WSDL 1.1, not by the BP)
+                extra = el_part("more", element(U + "Extra"))
+                in_parts.append(extra)
+                if body["parts"] is not None:
+                    body["parts"] += " more"
+                feats.append("doc-two-body-parts")
             in_msg = message(U + r.choice(["In", "Input", "SoapIn", "Msg"]), in_parts)
             if hdr and hdr[1]["message"] is None:
                 hdr[1]["message"] = in_msg
-            if hdr:
+            # further soap:header elements (up to three in all): parts of one Headers message, or of
+            # a message each; every one must end up, once, in the generated Header class, in binding order
+            n_extra = force["extra_headers"] if "extra_headers" in force else r.choice([0, 0, 0, 0, 1, 1, 2])
+            if hdr is None and n_extra == 0:
+                pass
+            extras = []
+            if n_extra:
+                names = [("session", "SessionHeader"), ("trace", "TraceHeader")][:n_extra]
+                if r.random() < 0.5:
+                    hm2 = message(U + "MoreHeaders", [el_part(pn, element(en)) for pn, en in names])
+                    extras = [("header", {"message": hm2, "part": pn, "use": "literal"}) for pn, _ in names]
+                else:
+                    extras = [("header", {"message": message(U + up1(pn) + "Hdr", [el_part(pn, element(en))]), "part": pn,
+                                          "use": "literal"}) for pn, en in names]
+                feats.append("multi-header" if (hdr is not None or n_extra > 1) else "one-header")
+            hdrs = ([hdr] if hdr else []) + extras
+            r.shuffle(hdrs)
+            for h in hdrs:
+                if r.random() < 0.15:
+                    h[1]["headerfault"] = True
+            if hdrs:
                 if p("header_after_body", 0.2):
-                    in_exts = [("body", body), hdr]
+                    k = r.randint(0, len(hdrs) - 1)
+                    in_exts = hdrs[:k] + [("body", body)] + hdrs[k:]
                     feats.append("header-after-body")
                 else:
-                    in_exts = [hdr, ("body", body)]
+                    in_exts = hdrs + [("body", body)]
             else:
                 in_exts = [("body", body)]
             # ---- output message
@@ -177,10 +205,12 @@ def gen_wsdl(r, idx, force=None):
                 oname = U + r.choice(["Out", "Output", "SoapOut", "Response"])   # the element is <U>Result: no clash
             out_msg = message(oname, oparts)
             out_exts = [("body", obody)]
-            if p("out_header", 0.08):
-                hp = el_part("ohdr", element("AuthHeader"))
-                hm = message(U + "OutHeaders", [hp])
-                out_exts = [("header", {"message": hm, "part": "ohdr", "use": "literal"})] + out_exts
+            if p("out_header", 0.1):
+                ohs = [("ohdr", "AuthHeader"), ("otrace", "TraceHeader")][:r.choice([1, 1, 2])]
+                hm = message(U + "OutHeaders", [el_part(pn, element(en)) for pn, en in ohs])
+                oh = [("header", {"message": hm, "part": pn, "use": "literal"}) for pn, _ in ohs]
+                out_exts = oh + out_exts if r.random() < 0.7 else oh[:1] + out_exts + oh[1:]
+                feats.append("output-header")
             # ---- faults
             faults = []
             for fi in range(force["n_faults"] if "n_faults" in force else r.choice([0, 0, 1, 1, 2])):
@@ -316,7 +346,12 @@ def render(W):
                             s += f' parts={q(a["parts"])}'
                         out.append("        " + s + "/>")
                     else:
-                        out.append(f'        <{sp}:header message={q(ref(a["message"]))} part={q(a["part"])} use={q(a["use"])}/>')
+                        hopen = f'<{sp}:header message={q(ref(a["message"]))} part={q(a["part"])} use={q(a["use"])}'
+                        if a.get("headerfault"):
+                            out.append(f'        {hopen}><{sp}:headerfault message={q(ref(a["message"]))} part={q(a["part"])} '
+                                       f'use="literal"/></{sp}:header>')
+                        else:
+                            out.append("        " + hopen + "/>")
                 out.append(f'      </{w}{side}>')
             for fn in op["faults"]:
                 out.append(f'      <{w}fault name={q(fn)}><{sp}:fault name={q(fn)} use="literal"/></{w}fault>')
